@@ -127,6 +127,8 @@ def eq(a, b):
         return strz(a) == ser(b.z)
     if a.ty == 'seq' and b.ty == 'seq' and a.a['elem'] == b.a['elem'] and a.a['elem'] != 'E':
         return a.z == b.z
+    if (a.ty in ('seq', 'list') and is_strlike(b)) or (b.ty in ('seq', 'list') and is_strlike(a)):
+        return BoolVal(False)       # a list never equals a str
     if a.ty == 'tuple' and b.ty == 'tuple':
         if len(a.a['items']) != len(b.a['items']):
             return BoolVal(False)
